@@ -1278,6 +1278,20 @@ static void initializer2(Token **rest, Token *tok, Initializer *init) {
     return;
   }
 
+  // A string literal that initializes an array of character type may
+  // be enclosed in braces: `char s[] = {"abc"};`.
+  if (init->ty->kind == TY_ARRAY && is_integer(init->ty->base) && equal(tok, "{") &&
+      tok->next->kind == TK_STR) {
+    Token *end = tok->next->next;
+    if (equal(end, ","))
+      end = end->next;
+    if (equal(end, "}")) {
+      string_initializer(&tok, tok->next, init);
+      *rest = end->next;
+      return;
+    }
+  }
+
   if (init->ty->kind == TY_ARRAY) {
     if (equal(tok, "{"))
       array_initializer1(rest, tok, init);
